@@ -151,6 +151,10 @@ def add_tube(case, tube):
 # ---------------------------------------------------------------------------
 # comparing lives
 # ---------------------------------------------------------------------------
+def is_raise(x):
+    return isinstance(x, str) and x.startswith("raise")
+
+
 def life_key(x):
     return 0.0 if x == "zero" else (math.inf if x == "inf" else float(x))
 
@@ -171,6 +175,8 @@ def same_life(case_a, a, case_b, b, exact=False):
 
 def not_larger(case_a, new, old):
     """new <= old up to REL (and the integer tie in last mode)"""
+    if is_raise(new) or is_raise(old):
+        return is_raise(new) and is_raise(old)
     kn, ko = life_key(new), life_key(old)
     if kn <= ko:
         return True
@@ -241,7 +247,9 @@ def rel_tube(case, tube):
     a = run_life(case)
     c2 = add_tube(case, tube)
     b = run_life(c2)
-    if life_key(b) > life_key(a):
+    if is_raise(a):
+        return None, c2
+    if is_raise(b) or life_key(b) > life_key(a):
         return "life %r rises to %r when a tube is added" % (a, b), c2
     return None, c2
 
@@ -262,12 +270,18 @@ def point_damages(case):
 def real_max_cycles(material, mode, Df, Dc):
     mat = dc.real_material(material)
     dm = dc.make_calculator(mode)
-    return dc.canon_life(dm.calculate_max_cycles(dm.make_extrapolate(np.asarray(Dc)), dm.make_extrapolate(np.asarray(Df)), mat))
+    try:
+        return dc.canon_life(dm.calculate_max_cycles(dm.make_extrapolate(np.asarray(Dc)),
+                                                     dm.make_extrapolate(np.asarray(Df)), mat))
+    except ValueError as e:
+        return "raise " + str(e)[:60]
 
 
 def rel_scale(material, Df, Dc, l):
     a = real_max_cycles(material, "lump", Df, Dc)
     b = real_max_cycles(material, "lump", np.asarray(Df) * l, np.asarray(Dc) * l)
+    if is_raise(a) or is_raise(b):
+        return ("calculate_max_cycles raised on non-negative damages: %r, %r" % (a, b)), (a, b)
     if isinstance(a, str) or isinstance(b, str):
         # outside the bracket on one side: only the order can be checked
         if l >= 1 and life_key(b) > life_key(a) or l <= 1 and life_key(b) < life_key(a):
@@ -367,7 +381,12 @@ def run(ctx):
         note("tube", what, dict(kind="tube", case=dc.case_to_json(c2)), (i,), fin)
         # scaling of the per-cycle damages (lumped), real arrays of this base
         if base["mode"] == "lump" and not isinstance(a, str):
-            pts = point_damages(base)
+            try:
+                pts = point_damages(base)
+            except ValueError:
+                pts = []
+            if not pts:
+                continue
             for r in range(3):
                 Df, Dc = pts[rng.randrange(len(pts))]
                 l = 10 ** rng.uniform(-1.0, 1.0)
